@@ -172,6 +172,8 @@ class _Canonical(ast.NodeTransformer):
                 continue                    # buf[n:n] = b'' changes nothing
             if isinstance(st, ast.Expr) and isinstance(st.value, ast.Constant):
                 continue                    # docstrings and stray literals
+            if isinstance(st, ast.Pass) and len(body) > 1:
+                continue
             if isinstance(st, ast.Expr) and (isinstance(st.value, ast.Name) or (isinstance(st.value, ast.Tuple) and all(isinstance(x, ast.Name) for x in st.value.elts))):
                 continue                    # an expression statement that only names locals does nothing
             if isinstance(st, ast.Assign) and len(st.targets) == 1 and isinstance(st.targets[0], ast.Tuple) and isinstance(st.value, ast.Tuple) \
@@ -652,7 +654,7 @@ def _stable_rhs(fn, blk, i, rhs, uses, params) -> bool:
     reads of self.<attr> are allowed when the function never stores that attribute and calls no method of self after blk[i]
     (calls on other objects are taken not to reach back into self).  All uses must lie in the statements that follow in the
     same block, outside nested functions."""
-    names, attrs = set(), set()
+    names, attrs, roots = set(), set(), set()
 
     def ok(e) -> bool:
         if isinstance(e, ast.Constant):
@@ -667,7 +669,18 @@ def _stable_rhs(fn, blk, i, rhs, uses, params) -> bool:
             if isinstance(e.value, ast.Name) and e.value.id == "self":
                 attrs.add(e.attr)
                 return True
+            if isinstance(e.value, ast.Name):
+                # a field of a local object: stable while that field is not stored, the name not rebound, and the object not
+                # handed to a call or used as the receiver of a method that may change it
+                roots.add(e.value.id)
+                attrs.add(e.attr)
+                return True
             return False
+        if isinstance(e, ast.Call) and isinstance(e.func, ast.Attribute) and isinstance(e.func.value, ast.Name) and e.func.value.id != "self" \
+                and e.func.attr in _PURE_METHODS and not any(isinstance(a, ast.Starred) for a in e.args):
+            # a read-only method of a local object (parser look-ups, struct packing, string methods)
+            roots.add(e.func.value.id)
+            return all(ok(a) for a in e.args) and all(ok(k.value) for k in e.keywords)
         if isinstance(e, ast.BinOp):
             return ok(e.left) and ok(e.right)
         if isinstance(e, ast.UnaryOp):
@@ -715,13 +728,18 @@ def _stable_rhs(fn, blk, i, rhs, uses, params) -> bool:
                 return False
         elif isinstance(x, ast.Call) and isinstance(x.func, ast.Attribute):
             r = x.func.value
-            if isinstance(r, ast.Name) and r.id in names and x.func.attr not in _PURE_METHODS:
+            if isinstance(r, ast.Name) and r.id in (names | roots) and x.func.attr not in _PURE_METHODS:
                 return False
             if attrs and isinstance(r, ast.Name) and r.id == "self":
                 return False
             if attrs and isinstance(r, ast.Call) and isinstance(r.func, ast.Name) and r.func.id == "super":
                 return False
         if root is not None and root in names:
+            return False
+        if isinstance(x, ast.Name) and isinstance(x.ctx, (ast.Store, ast.Del)) and x.id in roots:
+            return False
+        if isinstance(x, ast.Call) and roots and any(isinstance(a, ast.Name) and a.id in roots for a in list(x.args) + [k.value for k in x.keywords]) \
+                and not (isinstance(x.func, ast.Name) and x.func.id in _PURE_BUILTINS):
             return False
     return True
 
@@ -772,14 +790,128 @@ def _copy_propagate_attr(fn, blk, i, st, ref_lines) -> bool:
     return False
 
 
+def _ctor_fields(tree: ast.Module):
+    """{class name: {field: positional index of the constructor parameter stored in it}} for fields that the class stores
+    exactly once, in __init__, straight from a parameter."""
+    out = {}
+    for c in [n for n in tree.body if isinstance(n, ast.ClassDef)]:
+        init = next((m for m in c.body if isinstance(m, ast.FunctionDef) and m.name == "__init__"), None)
+        if init is None or init.args.vararg or init.args.kwarg:
+            continue
+        ps = [a.arg for a in init.args.posonlyargs + init.args.args][1:]
+        stores = {}
+        for x in ast.walk(c):
+            if isinstance(x, ast.Attribute) and isinstance(x.ctx, (ast.Store, ast.Del)):
+                stores[x.attr] = stores.get(x.attr, 0) + 1
+        fields = {}
+        for st in init.body:
+            if isinstance(st, ast.Assign) and len(st.targets) == 1 and isinstance(st.targets[0], ast.Attribute) and isinstance(st.targets[0].value, ast.Name) \
+                    and st.targets[0].value.id == "self" and isinstance(st.value, ast.Name) and st.value.id in ps and stores.get(st.targets[0].attr) == 1 \
+                    and not any(isinstance(y, ast.Name) and y.id == st.value.id and isinstance(y.ctx, ast.Store) for y in ast.walk(init)):
+                fields[st.targets[0].attr] = ps.index(st.value.id)
+        if fields and not any(isinstance(m, ast.FunctionDef) and m.name in ("__setattr__", "__getattr__", "__getattribute__") for m in c.body):
+            out[c.name] = fields
+    return out
+
+
+def _ctor_field_reads(fn: ast.FunctionDef, ref_fn: dict, ctor) -> None:
+    """`x = Cls(a, b)` ... `x.f`  ->  `a` where Cls.__init__ stores parameter a in f and nothing else ever stores f, x and a are
+    not rebound in between; done where it makes the statement read as the reference's."""
+    import copy as _copy
+    ref_lines = {l.strip() for l in ref_fn.get("src", "").splitlines()}
+    for blk in _fn_blocks(fn):
+        for i, st in enumerate(blk):
+            if not (isinstance(st, ast.Assign) and len(st.targets) == 1 and isinstance(st.targets[0], ast.Name) and isinstance(st.value, ast.Call)
+                    and isinstance(st.value.func, ast.Name) and st.value.func.id in ctor and not st.value.keywords
+                    and all(isinstance(a, (ast.Name, ast.Constant)) for a in st.value.args)):
+                continue
+            x, fields = st.targets[0].id, ctor[st.value.func.id]
+            argn = {a.id for a in st.value.args if isinstance(a, ast.Name)}
+            for later in blk[i + 1:]:
+                if any(isinstance(n, ast.Name) and isinstance(n.ctx, (ast.Store, ast.Del)) and n.id in argn | {x} for n in ast.walk(later)):
+                    break
+                for sub in ast.walk(later):
+                    if not isinstance(sub, ast.stmt):
+                        continue
+                    scope = sub.test if isinstance(sub, (ast.If, ast.While)) else (sub if isinstance(sub, _SIMPLE_STMTS) else None)
+                    if scope is None or _head_line(sub) in ref_lines:
+                        continue
+                    uses = [n for n in ast.walk(scope) if isinstance(n, ast.Attribute) and isinstance(n.ctx, ast.Load) and isinstance(n.value, ast.Name) and n.value.id == x
+                            and n.attr in fields and fields[n.attr] < len(st.value.args)]
+                    if not uses:
+                        continue
+                    trial = _copy.deepcopy(sub)
+
+                    class _R(ast.NodeTransformer):
+                        def visit_Attribute(self, node):
+                            if isinstance(node.ctx, ast.Load) and isinstance(node.value, ast.Name) and node.value.id == x and node.attr in fields and fields[node.attr] < len(st.value.args):
+                                return ast.copy_location(_copy.deepcopy(st.value.args[fields[node.attr]]), node)
+                            return self.generic_visit(node)
+                    if isinstance(trial, (ast.If, ast.While)):
+                        trial.test = _R().visit(trial.test)
+                    else:
+                        trial = _R().visit(trial)
+                    if _head_line(_Canonical().visit(trial)) in ref_lines:
+                        for u in uses:
+                            _replace_in(fn, u, _copy.deepcopy(st.value.args[fields[u.attr]]))
+                        return _ctor_field_reads(fn, ref_fn, ctor)
+
+
+def _reverse_copy_attr(fn, blk, i, st, ref_lines) -> bool:
+    """`obj.a = t` (t a local): a later read of t in the same block is obj.a as long as neither is written again, obj is not
+    rebound or handed to a call in between; done where it makes the statement read as the reference's."""
+    import copy as _copy
+    tgt, t = st.targets[0], st.value.id
+    obj, attr = tgt.value.id, tgt.attr
+    for later in blk[i + 1:]:
+        for sub in ast.walk(later):
+            if isinstance(sub, ast.Attribute) and sub.attr == attr and isinstance(sub.ctx, (ast.Store, ast.Del)):
+                return False
+            if isinstance(sub, ast.Name) and sub.id in (obj, t) and isinstance(sub.ctx, (ast.Store, ast.Del)):
+                return False
+            if isinstance(sub, (ast.FunctionDef, ast.Lambda)):
+                return False
+        for sub in ast.walk(later):
+            if not isinstance(sub, ast.stmt):
+                continue
+            scope = sub.test if isinstance(sub, (ast.If, ast.While)) else (sub if isinstance(sub, _SIMPLE_STMTS) else None)
+            if scope is None or _head_line(sub) in ref_lines:
+                continue
+            uses = [x for x in ast.walk(scope) if isinstance(x, ast.Name) and x.id == t and isinstance(x.ctx, ast.Load)]
+            if not uses:
+                continue
+            trial = _copy.deepcopy(sub)
+
+            class _R(ast.NodeTransformer):
+                def visit_Name(self, node):
+                    if node.id == t and isinstance(node.ctx, ast.Load):
+                        return ast.copy_location(ast.Attribute(value=ast.Name(id=obj, ctx=ast.Load()), attr=attr, ctx=ast.Load()), node)
+                    return node
+            if isinstance(trial, (ast.If, ast.While)):
+                trial.test = _R().visit(trial.test)
+            else:
+                trial = _R().visit(trial)
+            if _head_line(_Canonical().visit(trial)) in ref_lines:
+                for u in uses:
+                    _replace_in(fn, u, ast.Attribute(value=ast.Name(id=obj, ctx=ast.Load()), attr=attr, ctx=ast.Load()))
+                return True
+        # a call in this statement that is handed obj (or any call on self when obj is self) may store the attribute
+        for sub in ast.walk(later):
+            if isinstance(sub, ast.Call) and (any(isinstance(a, ast.Name) and a.id == obj for a in sub.args)
+                                              or (isinstance(sub.func, ast.Attribute) and isinstance(sub.func.value, ast.Name) and sub.func.value.id == obj and sub.func.attr not in _PURE_METHODS)):
+                return False
+    return False
+
+
 def _substitute_toward_reference(fn: ast.FunctionDef, ref_fn: dict) -> None:
     """Forward substitution guided by the reference: a read of a local whose (pure, still valid) defining expression, put in
     its place, makes the statement read exactly as one of the reference function does is replaced by that expression."""
     import copy as _copy
     ref_lines = {l.strip() for l in ref_fn.get("src", "").splitlines()}
     params = {p.arg for p in fn.args.posonlyargs + fn.args.args + fn.args.kwonlyargs}
-    for _ in range(20):
+    for _ in range(40):
         changed = False
+        # attribute copies first (the forward substitution below would dissolve their right-hand sides)
         for blk in _fn_blocks(fn):
             for i, st in enumerate(blk):
                 if isinstance(st, ast.Assign) and len(st.targets) == 1 and isinstance(st.targets[0], ast.Attribute) and isinstance(st.targets[0].value, ast.Name) \
@@ -788,6 +920,17 @@ def _substitute_toward_reference(fn: ast.FunctionDef, ref_fn: dict) -> None:
                         changed = True
                         break
                     continue
+                if isinstance(st, ast.Assign) and len(st.targets) == 1 and isinstance(st.targets[0], ast.Attribute) and isinstance(st.targets[0].value, ast.Name) \
+                        and isinstance(st.value, ast.Name) and st.value.id not in params:
+                    if _reverse_copy_attr(fn, blk, i, st, ref_lines):
+                        changed = True
+                        break
+            if changed:
+                break
+        if changed:
+            continue
+        for blk in _fn_blocks(fn):
+            for i, st in enumerate(blk):
                 if not (isinstance(st, ast.Assign) and len(st.targets) == 1 and isinstance(st.targets[0], ast.Name)):
                     continue
                 t = st.targets[0].id
@@ -894,7 +1037,7 @@ def _extract_toward_reference(fn: ast.FunctionDef, ref_fn: dict, known: set) -> 
         if x in present or len(values) != 1:
             continue
         txt = ast.unparse(values[0])
-        hits = [n for n in ast.walk(fn) if isinstance(n, ast.expr) and not isinstance(n, ast.Constant) and (not isinstance(n, ast.Name) or isinstance(n.ctx, ast.Load)) and ast.unparse(n) == txt]
+        hits = [n for n in ast.walk(fn) if isinstance(n, ast.expr) and not isinstance(n, ast.Constant) and isinstance(getattr(n, "ctx", ast.Load()), ast.Load) and ast.unparse(n) == txt]
         # nested hits (E inside E) cannot happen for equal texts; hits inside nested functions are out
         if not hits or any(isinstance(f_, (ast.FunctionDef, ast.Lambda)) and f_ is not fn and any(h_ is y for h_ in hits for y in ast.walk(f_)) for f_ in ast.walk(fn)):
             continue
@@ -967,6 +1110,16 @@ def _fuse_unpack_stores(fn: ast.FunctionDef, known: set) -> None:
                 return _fuse_unpack_stores(fn, known)
 
 
+def _in_try_body(fn: ast.FunctionDef, st: ast.stmt) -> bool:
+    """Is the statement inside the body of a try statement of fn (where an exception half-way is observable afterwards)?"""
+    for t in ast.walk(fn):
+        if isinstance(t, ast.Try) and (t.handlers or t.finalbody):
+            for b in t.body:
+                if any(x is st for x in ast.walk(b)):
+                    return True
+    return False
+
+
 def _merge_name_alias(fn: ast.FunctionDef, known: set) -> None:
     """`b = E` ... `a = b` with b a fresh local that is not used after the copy and a not mentioned in between: b is a."""
     params = {p.arg for p in fn.args.posonlyargs + fn.args.args + fn.args.kwonlyargs} | ({fn.args.vararg.arg} if fn.args.vararg else set()) | ({fn.args.kwarg.arg} if fn.args.kwarg else set())
@@ -977,7 +1130,7 @@ def _merge_name_alias(fn: ast.FunctionDef, known: set) -> None:
             if not (isinstance(st, ast.Assign) and len(st.targets) == 1 and isinstance(st.targets[0], ast.Name) and isinstance(st.value, ast.Name)):
                 continue
             a, b = st.targets[0].id, st.value.id
-            if a == b or b in known or b in params or a in params:
+            if a == b or b in known or b in params or a in params or _in_try_body(fn, st):
                 continue
             occ_b = [x for x in ast.walk(fn) if isinstance(x, ast.Name) and x.id == b]
             if sum(isinstance(x.ctx, ast.Store) for x in occ_b) != 1:
@@ -1010,7 +1163,7 @@ def _delay_snapshot_mutation(fn: ast.FunctionDef, known: set) -> None:
                     and isinstance(st.value, ast.Attribute) and isinstance(st.value.value, ast.Name) and st.value.value.id == "self"):
                 continue
             t, attr = st.targets[0].id, st.value.attr
-            if sum(1 for x in ast.walk(fn) if isinstance(x, ast.Name) and x.id == t and isinstance(x.ctx, ast.Store)) != 1:
+            if sum(1 for x in ast.walk(fn) if isinstance(x, ast.Name) and x.id == t and isinstance(x.ctx, ast.Store)) != 1 or _in_try_body(fn, st):
                 continue
             m = None
             for k in range(i + 1, len(blk)):
@@ -1123,9 +1276,16 @@ def _inline_fresh_temps(fn: ast.FunctionDef, known: set, multi: bool = True) -> 
                         del blk[i]
                         changed = True
                         break
-                if t in known or t in params or len(stores.get(t, [])) != 1 or len(loads.get(t, [])) != 1:
+                if t in known or t in params or not loads.get(t):
                     continue
-                use = loads[t][0]
+                rest_nodes = [x for later_st in blk[i + 1:] for x in ast.walk(later_st)]
+                here = [u for u in loads[t] if any(u is x for x in rest_nodes)]
+                restored = any(x is not st.targets[0] and any(x is y for y in rest_nodes) for x in stores.get(t, []))
+                sole = len(stores.get(t, [])) == 1 and len(loads[t]) == 1
+                leaves = isinstance(blk[-1], (ast.Return, ast.Raise)) and not any(isinstance(x, (ast.Break, ast.Continue)) for x in rest_nodes)
+                if len(here) != 1 or not (sole or (leaves and not restored)):
+                    continue
+                use = here[0]
                 rhs = st.value
                 if any(isinstance(x, (ast.Lambda, ast.NamedExpr, ast.Await, ast.Yield, ast.YieldFrom, ast.Starred)) for x in ast.walk(rhs)):
                     continue                    # (a comprehension on the right-hand side is evaluated eagerly, once: it may move)
@@ -1257,6 +1417,7 @@ def canonicalise(tree: ast.Module, rel: str = "") -> ast.Module:
         canon.inline_fresh_helpers(tree, ref)
         canon.rename_fresh_members(tree, ref)
         canon.restore_inlined_helpers(tree, ref)
+    ctor = _ctor_fields(tree) if ref is not None else {}
     if names or ref is not None:
         def walk(node, prefix):
             for n in getattr(node, "body", []):
@@ -1284,6 +1445,7 @@ def canonicalise(tree: ast.Module, rel: str = "") -> ast.Module:
                         if rf is not None:
                             from . import canon
                             canon.normalise_expression_forms(n, rf)
+                            canon.sink_tail_into_branches(n, rf)
                             canon.hoist_common_tail(n, rf)
                             canon.normalise_control_flow(n, rf.get("tests", []), rf.get("forms", {}))
                             canon.hoist_common_tail(n, rf)
@@ -1298,10 +1460,14 @@ def canonicalise(tree: ast.Module, rel: str = "") -> ast.Module:
                         _inline_fresh_temps(n, known, multi=False)
                         shape()
                         rename()
+                        if rf is not None:
+                            _substitute_toward_reference(n, rf)
                         _inline_fresh_temps(n, known)
                         _Canonical().visit(n)          # the stage-1 forms again for what inlining has put together
                         if rf is not None:
                             _substitute_toward_reference(n, rf)
+                            if ctor:
+                                _ctor_field_reads(n, rf, ctor)
                             _extract_toward_reference(n, rf, known)
                         shape()
                         now = ast.dump(n)
